@@ -978,7 +978,9 @@ def r_model_typestate(ctx):
                         for a_ in ast.walk(fn):
                             if isinstance(a_, ast.Assign) and len(a_.targets) == 1 and isinstance(a_.targets[0], ast.Name):
                                 assigned.setdefault(a_.targets[0].id, []).append(a_.value)
-                        once = {k_: v_[0] for k_, v_ in assigned.items() if len(v_) == 1}
+                        # a flag stands for its test only if it was computed after the verdict it tests was obtained
+                        chk_line = getattr(chk[0].ast, "lineno", 0)
+                        once = {k_: v_[0] for k_, v_ in assigned.items() if len(v_) == 1 and getattr(v_[0], "lineno", 0) > chk_line}
 
                         def edge(n_, lab_, facts_):
                             return frozenset(set(facts_) | verdict_edge_facts(n_, lab_, res_v, once))
